@@ -40,13 +40,12 @@ def run(chk):
     if chk.require("R1 initial value", "R1|make_credential", mc, AUTH, "Authenticator::make_credential async body not found"):
         chk.touched(mc)
         T = flow.Terms(p, mc)
-        aggs = find_aggs(mc, "Passkey")
-        chk.require("R1 initial value", "R1|Passkey-aggregate", len(aggs) == 1, where(mc), "expected exactly one Passkey construction, found %d" % len(aggs))
-        for bb, idx, rv in aggs:
-            fields = rv["fields"]
-            op = rv["ops"][fields.index("counter")]
+        from .common import saved_passkey
+        rec, sbb = saved_passkey(p, mc, T, N)
+        chk.require("R1 initial value", "R1|Passkey-aggregate", rec is not None and "counter" in rec, where(mc), "the Passkey record handed to save_credential was not found")
+        for bb, idx in ([(sbb, "t")] if rec is not None and "counter" in rec else []):
             # normal form: `flag.then_some(0)`, `if flag {Some(0)} else {None}`, `match` ... all become the same selection
-            term = N.norm(T.operand(op, bb, idx))
+            term = rec["counter"]
             rws = normal.cases(term)
             bad = []
             is_flag = lambda x: isinstance(x, tuple) and len(x) == 3 and x[0] == "field" and x[2] == "make_credentials_with_signature_counter"
@@ -68,9 +67,9 @@ def run(chk):
                         bad.append("selected by %s" % flow.term_str(a)[:80])
                 sel.setdefault(kind, set()).update(pol)
             cond_ok = sel.get("Some(0)") == {True} and sel.get("None") == {False}
-            chk.ob("R1 initial value", "R1|Passkey.counter|sources", not bad, where(mc, line=mc.blocks[bb]["stmts"][idx]["line"]),
+            chk.ob("R1 initial value", "R1|Passkey.counter|sources", not bad, where(mc, bb),
                    "counter := %s; non-zero/foreign sources: %s" % (flow.term_str(term), bad or "none"))
-            chk.ob("R1 initial value", "R1|Passkey.counter|selector", cond_ok, where(mc, line=mc.blocks[bb]["stmts"][idx]["line"]),
+            chk.ob("R1 initial value", "R1|Passkey.counter|selector", cond_ok, where(mc, bb),
                    "Some/None selected by make_credentials_with_signature_counter: %s" % cond_ok)
             # same value into AuthenticatorData::new
             news = names.calls_to(mc, "AuthenticatorData::new")
